@@ -5,21 +5,44 @@
 From Coq Require Import ZArith.
 From KM Require Import Base.Bytes Model.Auth Model.Certgen Model.CertgenCases
                        Proofs.CertgenSpec Proofs.CertgenAuth Proofs.Certgen Proofs.CertgenCert.
+From KM Require Model.Seal.
 Open Scope N_scope.
 
 (* every issued certificate names exactly the user the request authenticates (and the URL
    names, byte for byte), certifies exactly the submitted key, is an end-entity user
-   certificate with client-authentication usage, signed by a key the server publishes *)
-Theorem c02_binding : forall expand st now lim q u c,
+   certificate with client-authentication usage, and is signed by a key the server publishes: the
+   key material of the server is ANY state the sealing model (Model/Seal.v, C09) reaches from a
+   freshly loaded configuration kc - any key files, any list of keys in
+   keymaster_public_keys_filename (any content, any order, duplicates, the server's own keys
+   among them or not) - by any list of injections; the signing key is then among the keys served by
+   /public/sshca (KeymasterPublicKeys) and among the CA certificates served by /public/x509ca. *)
+Theorem c02_binding : forall expand kc l st now lim q u c,
+  s_keys st = Seal.inject_all kc (Seal.sealed_init kc) l ->
   certgen expand st now lim q = Issued u c ->
   (exists level, proves now q u level) /\
   d_names c = [s_name st u] /\ q_target q = s_name st u /\
   (exists ed, q_key q = Some (d_key c, ed)) /\
   d_user_type c = true /\ d_is_ca c = false /\
   (d_ssh c = false -> In EkuClientAuth (d_ekus c)) /\
-  In (d_signer c) (published st).
+  In (d_signer c) (published_ssh st) /\ In (d_signer c) (published_x509 st).
 Proof. exact binding. Qed.
 Print Assumptions c02_binding.
+
+(* the signing key is a loaded signer: the main one, or the Ed25519 one for an SSH certificate *)
+Theorem c02_signed_by_loaded_signer : forall expand st now lim q u c,
+  certgen expand st now lim q = Issued u c ->
+  Seal.signer (s_keys st) <> None /\
+  (Seal.signer (s_keys st) = Some (d_signer c) \/ (d_ssh c = true /\ Seal.ed (s_keys st) = Some (d_signer c))).
+Proof. exact issued_signer. Qed.
+Print Assumptions c02_signed_by_loaded_signer.
+
+(* signerPublicKeyToKeymasterKeys as a function from (initial key list, loaded signers) to the
+   published list: every loaded signer's key is in the result, for every initial list *)
+Theorem c02_published_for_every_initial_list : forall s k,
+  (Seal.signer s = Some k \/ (Seal.ed s = Some k /\ Seal.signer s <> None)) ->
+  Seal.mem k (Seal.add_pubkeys s) = true.
+Proof. exact published_for_every_initial_list. Qed.
+Print Assumptions c02_published_for_every_initial_list.
 
 (* a request made on behalf of any other name is refused (403 when it would otherwise qualify) *)
 Theorem c02_other_user_refused : forall expand st now lim q u level iat,
@@ -75,6 +98,23 @@ Example c02_ext_override :
   lookup (ssh_extensions [([107], [119]); ([], [118]); (e_pty, n_alice)]) [] = None /\
   lookup (ssh_extensions [([107], [119]); ([], [118]); (e_pty, n_alice)]) e_pty = Some n_alice /\
   length (ssh_extensions [([107], [119]); ([], [118]); (e_pty, n_alice)]) = 6%nat.
+Proof. vm_compute. repeat split; reflexivity. Qed.
+
+(* non-vacuity of the published-key part: Ed25519 CA configured, the server's own main key already
+   listed (with a foreign key, twice): after the right injection an SSH certificate on an Ed25519
+   user key is signed by key 2, and the published list is [9; 1; 9; 1; 2] *)
+Example c02_published_example :
+  let kc := {| Seal.right_pass := key_pass; Seal.main_key := 1; Seal.main_res := Seal.FGood; Seal.role_ok := true;
+               Seal.ed_file := Some (key_pass, 2, Seal.FGood); Seal.extra_pubkeys := [9; 1; 9; 1] |} in
+  let r := {| Seal.i_tls := true; Seal.i_chain := true; Seal.i_field := Some key_pass |} in
+  let ks := Seal.inject_all kc (Seal.sealed_init kc) [r] in
+  Seal.pubkeys ks = [9; 1; 9; 1; 2] /\ Seal.ca_ders ks = [2; 1] /\
+  match certgen no_expand {| s_keys := ks; s_cfg := [sU2F]; s_name := case_name; s_host := []; s_templates := [];
+                             s_realm := None; s_groups := fun _ => Some []; s_methods := fun _ => Some [] |}
+                0%Z true (case_req (nth 8 shapes default_shape) 4 0) with
+  | Issued u d => d_signer d = 2 /\ u = 1
+  | Refused _ => False
+  end.
 Proof. vm_compute. repeat split; reflexivity. Qed.
 
 Example c02_alice : normalise None false n_Alice = n_alice /\ run_case 4 48 0 0 0 = 0 /\ run_case 4 8 0 0 0 = 6.
